@@ -161,6 +161,9 @@ def run(ctx):
             for name, mk in ENTRY:
                 lines.append("dops %s %d %s" % (dt, rng.choice([1000, 100000, 100000, 30, 1]), mk(m.hex(), rng)))
                 info.append((dt, "lying-ast", name))
+    # the bit bounds that gate the unchecked decoding path (C03n.fast_guard_sound is about the model's), value by value
+    from .. import litstream as L
+    L.run_ndbounds(ctx, 300 if ctx.quick else 4000)
     # random data behind a valid header
     for dt in S.ALL_DT:
         hb = {"i64": 1, "u64": 2, "i32": 3, "u32": 4, "f64": 5, "f32": 6, "bool": 7, "nanos96": 8, "micros96": 9, "i128": 10, "u128": 11,
